@@ -44,7 +44,25 @@ def sweep(ctx, n):
         warnings.simplefilter("ignore")
         for i in range(n):
             nps = np.random.default_rng(rng.randrange(2**31))
-            kind = ["flux-free", "flux-enclosing", "flux-cutting", "circ-magnet", "circ-loop-linked", "circ-loop-unlinked", "circ-polyloop", "flux-mesh-interior", "flux-segment-turns"][i % 9]
+            kind = ["flux-free", "flux-enclosing", "flux-cutting", "circ-magnet", "circ-loop-linked", "circ-loop-unlinked", "circ-polyloop", "flux-mesh-interior", "flux-segment-turns", "flux-mesh-row"][i % 10]
+            if kind == "flux-mesh-row":
+                # several box meshes with equal face counts evaluated in ONE call (a Collection): boxes placed inside a body,
+                # across its surface and between bodies must all have zero net flux of the joint B
+                from oracles.sources import mesh_row
+                arrangement, meshes, cubs, dims, poss, oris = mesh_row(rng, nps, spacing=4.0)
+                coll = magpy.Collection(*meshes)
+                worst_err = 0.0
+                for d, q in zip(dims, poss):
+                    for c, half in ((q + np.array([0.05, -0.03, 0.02]) * d, np.full(3, 0.12) * d.min()),          # inside the body
+                                    (q + np.array([0.0, 0.0, 0.5]) * d + [0.03, 0.02, 0.0], np.array([0.15, 0.15, 0.2]) * d.min())):  # across the top face
+                        tot, mag = box_flux(lambda p: coll.getB(p), c, half, 40)
+                        worst_err = max(worst_err, abs(tot) / (mag + 1e-300))
+                done += 1
+                worst[kind] = max(worst.get(kind, 0.0), float(worst_err))
+                if not worst_err < 2e-2:
+                    fails.append({"key": "integral-law:flux-mesh-row", "desc": f"net flux of the joint B of a row of box meshes ({arrangement}) through a small box inside / across a body is not zero (relative {worst_err:.2g})",
+                                  "replay": {"arrangement": arrangement, "dims": [np.asarray(x).tolist() for x in dims], "rel": float(worst_err)}})
+                continue
             if kind == "flux-segment-turns":
                 # CylinderSegment whose angular range is written up to two full turns away from [-360, 360]: small boxes
                 # across its top face at azimuths spread over the whole range; net flux of B must vanish for each
